@@ -1,0 +1,19 @@
+//go:build verif
+
+package rtptime
+
+import "time"
+
+// This file is compiled only with the "verif" build tag. GlobalDecoder reads
+// the system clock through the private variable timeNow (the package's own
+// tests replace it); the verification harness does the same from outside the
+// package so that the placement of late-starting tracks can be compared with
+// exact arithmetic. It adds no behaviour.
+
+// VerifSetTimeNow replaces the clock of the package; nil restores time.Now.
+func VerifSetTimeNow(f func() time.Time) {
+	if f == nil {
+		f = time.Now
+	}
+	timeNow = f
+}
